@@ -11,6 +11,8 @@
 //!   norm compose <a> <b>   -> <c> | -
 //!   norm decompose <c>     -> <a> <b> | -          (b = 0: singleton)
 //!   norm props <c>         -> <mark> <space> <mcc> <di> <vs> <space_fallback>
+//!   norm depth <lo> <hi>  -> max over the scalar values in [lo, hi] of the length of the decomposition chain
+//!                            (number of `unicode::decompose` steps following the first component)
 //!   norm table decomp|comp|hangul|mcc|marks|zs|di|vs|sfb|consts|mcctab|ccc   (for tools/gens/norm.py)
 use super::util::hex_bytes;
 use rustybuzz::verif::{normalize as nh, unicode as uh};
@@ -108,6 +110,27 @@ pub fn handle(toks: &[&str], _st: &mut crate::State) -> Option<String> {
                 Some((a, b)) => format!("{} {}", a as u32, b as u32),
                 None => "-".into(),
             })
+        }
+        "depth" => {
+            let lo: u32 = toks.get(1)?.parse().ok()?;
+            let hi: u32 = toks.get(2)?.parse().ok()?;
+            let mut best = 0u32;
+            for u in lo..=hi {
+                let mut c = match char::from_u32(u) {
+                    Some(c) => c,
+                    None => continue,
+                };
+                let mut d = 0u32;
+                while let Some((a, _)) = uh::decompose(c) {
+                    d += 1;
+                    c = a;
+                    if d > 64 {
+                        break;
+                    }
+                }
+                best = best.max(d);
+            }
+            Some(format!("{}", best))
         }
         "props" => {
             let c = ch(toks.get(1)?)?;
